@@ -206,12 +206,6 @@ def fault_scenarios(run, menu_name, theorems, only_locks=False):
     for fam, (sid, k, pers) in corpus.items():
         must.setdefault(sid, []).append((k, pers))
     chosen = [s_ for s_ in scen if s_["id"] in must and s_ not in chosen] + list(chosen)
-    # beyond the proved menu (whose calls write one buffer): calls that write several buffers, so that a failing write can be
-    # the first, a middle or the last one (FaultGeneral.rfs_write_chunks is the general lemma; here: correspondence + search)
-    for k_, (st_, cl_, ip_) in enumerate([("", "so 1 p 9 3 n n", 1), ("so 2 p 7 1 n n", "so 1 p 9 3 n n", 1), ("", "sm 1 0 p 1 3", 1),
-                                          ("sm 1 0 p 1 1", "sm 1 0 p 2 3", 1), ("so 2 p 9 3 n n", "so 1 p 9 3 n n", 1)]):
-        ms = cf.parse_fault_result(model.run_lines([cf.model_fault_line(cf.parse_history(st_), cf.parse_call(cl_), 10 ** 6, False)])[0])[3]
-        chosen.append({"id": 1000 + k_, "setup": st_, "call": cl_, "pid": ip_, "others": [2, 3], "sites": ms})
     runs = 0
     for s in chosen:
         setup = cf.parse_history(s["setup"])
